@@ -383,10 +383,14 @@ class PackageLoader(BaseLoader):
             if not os.path.isfile(p):
                 raise TemplateNotFound(template)
 
+            # Record the mtime before reading, like FileSystemLoader. Taking
+            # it after the read could pair old contents with the mtime of
+            # a file that was replaced in between, and the stale template
+            # would then be served until the file changes again.
+            mtime = os.path.getmtime(p)
+
             with open(p, "rb") as f:
                 source = f.read()
-
-            mtime = os.path.getmtime(p)
 
             def up_to_date() -> bool:
                 return os.path.isfile(p) and os.path.getmtime(p) == mtime
